@@ -285,8 +285,10 @@ func genVerify(t *rapid.T) verifyCase {
 	pi, pk, _ := ref.Prove(seed, alpha)
 	c := verifyCase{Kind: "honest", Seed: seed, PK: pk, Alpha: alpha, Pi: pi}
 	tor := ed.Torsion()
-	switch h.Pick(t, "mut", 3, 4, 3, 2, 2, 2, 2, 2, 2, 1, 1) {
+	switch h.Pick(t, "mut", 3, 4, 3, 2, 2, 2, 2, 2, 2, 1, 1, 3) {
 	case 0:
+	case 11: // proofs Prove never emits, made with the secret scalar: RFC 9381 decides each of them
+		return crafted(t, seed, alpha)
 	case 1: // bit flip in one of the three fields
 		f := h.Pick(t, "field", 1, 1, 1)
 		lo, hi := []int{0, 32, 48}[f], []int{31, 47, 79}[f]
@@ -347,6 +349,74 @@ func genVerify(t *rapid.T) verifyCase {
 	return c
 }
 
+// crafted builds (key, proof) pairs with the secret scalar x of seed that an honest prover never emits and
+// that section 5.3 of RFC 9381 nevertheless accepts or rejects for a definite reason:
+//   - Gamma = xH + T with T of order 2, 4 or 8: accepted exactly when c*T = O (the nonce is stepped until
+//     that holds, or, for the twin, until it does not);
+//   - the mixed-order key Y' = xB + T (passes ECVRF_validate_key: 8Y' != O) with Gamma = xH: accepted exactly
+//     when c*T = O;
+//   - a chosen nonce: 0 (U = V = O), 1, L-1, or one that makes s = 0.
+// The hash of every accepted one is the honest hash for (x, alpha) resp. hash(8xH).
+func crafted(t *rapid.T, seed, alpha []byte) verifyCase {
+	x, _ := ed.SecretScalar(seed)
+	tor := ed.Torsion()
+	Y := ed.B.Mul(x)
+	T := tor[rapid.IntRange(1, 7).Draw(t, "cti")]
+	annihilated := func(c *big.Int) bool { return T.Mul(c).IsIdentity() }
+	k := new(big.Int).SetBytes(h.BytesN(t, "ck", 32))
+	k.Mod(k, ed.L)
+	build := func(pk []byte, gamma ed.Point, H ed.Point, k *big.Int) ([]byte, *big.Int) {
+		c := ref.Challenge(pk, H.Encode(), gamma, ed.B.Mul(k), H.Mul(k))
+		sc := new(big.Int).Mul(c, x)
+		sc.Add(sc, k).Mod(sc, ed.L)
+		return append(append(gamma.Encode(), ed.LEBytes(c, 16)...), ed.LEBytes(sc, 32)...), c
+	}
+	wantFit := h.Pick(t, "cfit", 3, 1) == 0
+	switch h.Pick(t, "ckind", 3, 3, 2) {
+	case 0:
+		pk := Y.Encode()
+		H, _ := ref.EncodeToCurve(pk, alpha)
+		gamma := H.Mul(x).Add(T)
+		for try := 0; try < 200; try++ {
+			pi, c := build(pk, gamma, H, k)
+			if annihilated(c) == wantFit {
+				return verifyCase{Kind: "crafted-gamma+torsion", Seed: seed, PK: pk, Alpha: alpha, Pi: pi}
+			}
+			k.Add(k, big.NewInt(1)).Mod(k, ed.L)
+		}
+	case 1:
+		pk := Y.Add(T).Encode()
+		H, _ := ref.EncodeToCurve(pk, alpha)
+		gamma := H.Mul(x)
+		for try := 0; try < 200; try++ {
+			pi, c := build(pk, gamma, H, k)
+			if annihilated(c) == wantFit {
+				return verifyCase{Kind: "crafted-key+torsion", PK: pk, Alpha: alpha, Pi: pi}
+			}
+			k.Add(k, big.NewInt(1)).Mod(k, ed.L)
+		}
+	}
+	pk := Y.Encode()
+	H, _ := ref.EncodeToCurve(pk, alpha)
+	gamma := H.Mul(x)
+	switch h.Pick(t, "cnonce", 3, 1, 1, 1) {
+	case 0:
+		k = big.NewInt(0)
+	case 1:
+		k = big.NewInt(1)
+	case 2:
+		k = new(big.Int).Sub(ed.L, big.NewInt(1))
+	default:
+		// s = k + c x = 0 needs c, which depends on k: take k = -c0 x for the challenge c0 of nonce 0 (a nonce
+		// related to the secret; s is then whatever it is)
+		_, c0 := build(pk, gamma, H, big.NewInt(0))
+		k = new(big.Int).Mul(c0, x)
+		k.Neg(k).Mod(k, ed.L)
+	}
+	pi, _ := build(pk, gamma, H, k)
+	return verifyCase{Kind: "crafted-nonce", Seed: seed, PK: pk, Alpha: alpha, Pi: pi}
+}
+
 func bytesOf(first, fill byte, n int) []byte {
 	out := []byte{first}
 	for i := 0; i < n; i++ {
@@ -361,8 +431,9 @@ func TestVerify(t *testing.T) {
 		Gen: genVerify, Check: checkVerify,
 		Require: []string{"honest/accept", "flip-gamma/reject-proof-decode", "flip-c/reject-challenge", "flip-s/reject-challenge", "gamma+torsion/reject-challenge",
 			"gamma-small-order/reject-proof-decode", "s-noncanonical/reject-proof-decode", "length/reject-proof-decode", "key-small-order/reject-key-small-order",
-			"key-small-order/reject-key-decode", "key-noncanonical/reject-key-decode", "other-key/reject-challenge", "key+torsion/reject-challenge"},
-		Rule: "honest proofs and structural mutations: bit flips in Gamma / c / s, Gamma plus a torsion point, Gamma replaced by small-order points in every (also non-canonical) encoding, s+jL and s top bits, lengths 0..100, key plus torsion, all small-order and non-canonical key encodings, other honest key, random 80-byte strings; Verify's boolean must equal the reference verifier's (two-sided), accepted hash = honest hash (uniqueness), SetBytes/ProofToHash/UnmarshalBinary succeed iff the reference decoder does and only for self-re-encoding inputs; non-trivial = not random bytes; distinct by case",
+			"key-small-order/reject-key-decode", "key-noncanonical/reject-key-decode", "other-key/reject-challenge", "key+torsion/reject-challenge",
+			"crafted-gamma+torsion/accept", "crafted-gamma+torsion/reject-challenge", "crafted-key+torsion/accept", "crafted-key+torsion/reject-challenge", "crafted-nonce/accept"},
+		Rule: "honest proofs and structural mutations: bit flips in Gamma / c / s, Gamma plus a torsion point, Gamma replaced by small-order points in every (also non-canonical) encoding, s+jL and s top bits, lengths 0..100, key plus torsion, all small-order and non-canonical key encodings, other honest key, proofs crafted with the secret scalar that Prove never emits (Gamma = xH + T and mixed-order key xB + T with the nonce stepped until c*T = O or until it is not; nonces 0, 1, L-1, -c0*x), random 80-byte strings; Verify's boolean must equal the reference verifier's (two-sided), accepted hash = honest hash (uniqueness), SetBytes/ProofToHash/UnmarshalBinary succeed iff the reference decoder does and only for self-re-encoding inputs; non-trivial = not random bytes; distinct by case",
 	})
 }
 
